@@ -12,6 +12,7 @@ import (
 	"sync"
 	"sync/atomic"
 	"time"
+	_ "time/tzdata"
 
 	"pault.ag/go/debian/changelog"
 	"pault.ag/go/debian/control"
@@ -192,7 +193,9 @@ var seedsC18 = map[string][]string{
 	"control":    {"Source: pkg\nMaintainer: A <a@b>\nUploaders: B <b@c>,\n C <c@d>\nBuild-Depends: debhelper (>= 9)\n\nPackage: pkg\nArchitecture: any\nDepends: ${shlibs:Depends}, x\nDescription: short\n long\n\nPackage: pkg-doc\nArchitecture: all\nDescription: docs\n"},
 	"packages":   {"Package: pkg\nVersion: 1.0-1\nInstalled-Size: 42\nArchitecture: amd64\nDepends: libc6 (>= 2.4)\nTag: a::b, c::d\nSize: 100\nDescription: short\n\nPackage: second\nVersion: 2\nArchitecture: all\n"},
 	"sources":    {"Package: pkg\nBinary: a, b\nVersion: 1.0-1\nArchitecture: any\nStandards-Version: 4.6.0\nBuild-Depends: debhelper\nFiles:\n d41d8cd98f00b204e9800998ecf8427e 0 pkg_1.0.dsc\n"},
-	"changelog":  {"hello (2.10-1) unstable; urgency=low\n\n  * Initial release.\n\n -- A B <a@b.org>  Mon, 02 Jan 2006 15:04:05 -0700\n\nhello (2.9-1) unstable; urgency=low\n\n  * Older.\n\n -- A B <a@b.org>  Sun, 01 Jan 2006 15:04:05 +0000\n"},
+	"changelog": {"hello (1.0-1) unstable; urgency=low\n\n  * Old style date.\n\n -- A B <a@b.org>  Mon, 22 Mar 1999 19:05:22 CET\n",
+		"hello (1.0-2) unstable; urgency=low\n\n  * x\n\n -- A B <a@b.org>  Mon, 22 Mar 1999 19:05:22 NST\n\nhello (1.0-1) unstable; urgency=low\n\n  * y\n\n -- A B <a@b.org>  Mon, 22 Mar 1999 19:05:22 IST\n",
+		"hello (2.10-1) unstable; urgency=low\n\n  * Initial release.\n\n -- A B <a@b.org>  Mon, 02 Jan 2006 15:04:05 -0700\n\nhello (2.9-1) unstable; urgency=low\n\n  * Older.\n\n -- A B <a@b.org>  Sun, 01 Jan 2006 15:04:05 +0000\n"},
 }
 
 func entryNames() []string {
@@ -322,6 +325,20 @@ func execC18(vec J, out *Writer) {
 		in := []byte(S(vec["input"]))
 		k1, d1, n1 := guarded(entries[name], in, 10)
 		k2, d2, _ := guarded(entries[name], in, 10)
+		// the same call with the process in another time zone (time.Local swapped): the outcome depends on the input only
+		if k2 == k1 && d2 == d1 {
+			saved := time.Local
+			for _, z := range []string{"Europe/Berlin", "America/St_Johns", "Asia/Kolkata"} {
+				if loc, err := time.LoadLocation(z); err == nil {
+					time.Local = loc
+					k2, d2, _ = guarded(entries[name], in, 10)
+					if k2 != k1 || d2 != d1 {
+						break
+					}
+				}
+			}
+			time.Local = saved
+		}
 		// `repeat`: the same call many more times; the first outcome that differs from the first call is what is logged
 		for i := 2; i < I0(vec["repeat"]) && k2 == k1 && d2 == d1; i++ {
 			k2, d2, _ = guarded(entries[name], in, 10)
